@@ -825,6 +825,17 @@ impl Session {
         self.trace.push(json!({"ev":"op","op":"asset_insert_edge","peer":peer,"kind":kind.name(),"uuid":hex(uuid.as_bytes()),"variant":variant}));
     }
 
+    /// a uuid material that points at a local image through a strong handle: the reflect encoder cannot serialise it, so every
+    /// sender skips it (live and in the snapshot) — and has to go on with the rest
+    pub fn asset_insert_unencodable_material(&mut self, peer: u32, uuid: Uuid) {
+        let w = self.peers[peer as usize].app.world_mut();
+        let img = w.resource_mut::<Assets<Image>>().add(Image::default());
+        let m = StandardMaterial { base_color_texture: Some(img.clone()), ..Default::default() };
+        w.resource_mut::<Assets<StandardMaterial>>().insert(AssetId::Uuid { uuid }, m);
+        w.resource_mut::<KeepHandles>().0.push(img.untyped());
+        self.trace.push(json!({"ev":"op","op":"asset_insert_unencodable","peer":peer,"kind":"material","uuid":hex(uuid.as_bytes())}));
+    }
+
     /// an announcement of an audio asset served by somebody else's endpoint (what the host relays for a client's asset):
     /// the genuine wire message, sent through the host's `RenetServer` to every client
     pub fn announce_external_audio(&mut self, id: Uuid, url: &str) -> bool {
@@ -1257,8 +1268,11 @@ fn asset_tables(world: &World) -> Value {
         let reg = reg.read();
         for (id, mat) in a.iter() {
             if let AssetId::Uuid { uuid } = id {
-                let b = verif::reflect_to_bin(mat.as_reflect(), &reg).unwrap_or_default();
-                m.insert(hex(uuid.as_bytes()), sha(&b));
+                // a material that cannot be encoded (a strong handle to a local image in a texture slot) is never sent by anybody:
+                // it is not part of what peers can be expected to share
+                if let Ok(b) = verif::reflect_to_bin(mat.as_reflect(), &reg) {
+                    m.insert(hex(uuid.as_bytes()), sha(&b));
+                }
             }
         }
         out.insert("material", m);
